@@ -44,6 +44,24 @@ def handle (line : String) : String :=
       | .error (some b) => "range " ++ hex64 b
       | .error none => "syntax"
     | none => "bad-hex"
+  | ["pparse", x] => match fromHex x with
+    | some bs => match parseJSONPath bs with
+      | .ok cmds => "ok " ++ ",".intercalate (cmds.map hexOrDash)
+      | .err e => errStr e
+      | .panic s => "panic " ++ s
+    | none => "bad-hex"
+  | ["tokenize", x] => match fromHex x with
+    | some bs => match Cur.tokenize builtinTable bs with
+      | .ok toks => "ok " ++ ",".intercalate (toks.map hexOrDash)
+      | .err e => errStr e
+      | .panic s => "panic " ++ s
+    | none => "bad-hex"
+  | ["rpn", x] => match fromHex x with
+    | some bs => match Cur.rpn builtinTable bs with
+      | .ok toks => "ok " ++ ",".intercalate (toks.map hexOrDash)
+      | .err e => errStr e
+      | .panic s => "panic " ++ s
+    | none => "bad-hex"
   | ["utf8", x] => match fromHex x with
     | some bs => let (r, s) := decodeRune bs; s!"{r} {s} {toHex (encodeRune r)}"
     | none => "bad-hex"
